@@ -2,6 +2,7 @@ package authorize
 
 import (
 	"errors"
+	"maps"
 	"slices"
 	"strings"
 
@@ -180,6 +181,11 @@ func authnSessionWithPAR(
 	// Continue with a copy of the pushed session, so the stored one, which may
 	// be shared with the storage, is only changed when the session is saved.
 	sessionCopy := *session
+	sessionCopy.Storage = maps.Clone(session.Storage)
+	sessionCopy.AdditionalTokenClaims = maps.Clone(session.AdditionalTokenClaims)
+	sessionCopy.AdditionalIDTokenClaims = maps.Clone(session.AdditionalIDTokenClaims)
+	sessionCopy.AdditionalUserInfoClaims = maps.Clone(session.AdditionalUserInfoClaims)
+	sessionCopy.IDTokenHintClaims = maps.Clone(session.IDTokenHintClaims)
 	session = &sessionCopy
 
 	// For FAPI, only the parameters sent during PAR are considered.
